@@ -215,7 +215,8 @@ type Decolorize struct{}
 // Text implements Stage.
 func (s *Decolorize) Text() string { return "| decolorize" }
 
-var sgr = regexp.MustCompile("\x1b\\[[0-9;]*m")
+// A colour sequence is CSI <parameters> m, where CSI is ESC [ or its single-character form U+009B (ECMA-48).
+var sgr = regexp.MustCompile("(?:\x1b\\[|\u009b)[0-9;]*m")
 
 // Apply implements Stage: removes the ANSI colour (SGR) sequences and nothing else.
 func (s *Decolorize) Apply(e *Entry, _ *QueryState) bool {
